@@ -345,3 +345,26 @@ M('np_sgn-bits-oversubscribed', ['C18'], (RT, "r_bits = self.np_random_bits(Zp, 
   why='for the plain sign (neither LT nor EQ) the sign masks alias the top bits of the additive mask (RB1)')
 M('poly-mod-exit-leq', ['C23'], ('gfpx', "        m = len(a)\n        n = len(b)\n        if m < n:\n            return a\n", "        m = len(a)\n        n = len(b)\n        if m <= n:\n            return a\n"),
   why='operands of equal degree are returned unreduced: deg r = deg b (OP8)')
+M('poly-mul-guard-longer', ['C23'], ('gfpx', "        # len(a) <= len(b)\n        if not a:\n            return []\n", "        # len(a) <= len(b)\n        if not b:\n            return []\n"),
+  why='the zero test looks at the longer operand: 0 * b allocates len(b) - 1 zero coefficients, a second representation of zero (OP9)')
+B('poly-sq-guard-max', ('gfpx', "        p = cls.p\n        if not a:\n            return []\n\n        c = [0] * (2*len(a) - 1)", "        p = cls.p\n        c = [0] * max(0, 2*len(a) - 1)"),
+  why='squaring zero without the early exit: max(0, -1) = 0 allocates [], the same result (OP9 must stay silent)')
+B('poly-mul-guard-both', ('gfpx', "        # len(a) <= len(b)\n        if not a:\n            return []\n", "        # len(a) <= len(b)\n        if not a or not b:\n            return []\n"),
+  why='redundant second emptiness test: same behaviour (OP9 must stay silent)')
+M('ext-rshift-raw-shift', ['C20'], (FF, "        return self * self._reciprocal(1 << other)\n", "        return type(self)(self.value >> other)\n"),
+  why='a >> n drops low-order coefficients while a >>= n divides by 2**n (OP10)')
+M('array-irshift-reciprocal-of-n', ['C20'], (FF, "        self.value *= self._reciprocal(1 << other)\n        self.value %= self.field.modulus", "        self.value *= self._reciprocal(other)\n        self.value %= self.field.modulus"),
+  why='a >>= n divides by n, a >> n by 2**n (OP10)')
+B('ext-rshift-temp', (FF, "        return self * self._reciprocal(1 << other)\n", "        r = self._reciprocal(1 << other)\n        return self * r\n"),
+  why='named temporary for the reciprocal: same operation (OP10 must stay silent)')
+B('prime-irshift-temp', (FF, "        self.value *= self._reciprocal2(other)\n        self.value %= self.modulus", "        inv = self._reciprocal2(other)\n        self.value = self.value * inv\n        self.value %= self.modulus"),
+  why='in-place shift written as plain assignment with a temporary (OP10 must stay silent)')
+B('poly-mul-lengths-named', ('gfpx', "        if len(a) > len(b):\n            a, b = b, a\n        # len(a) <= len(b)\n        if not a:\n            return []\n\n        c = [0] * (len(a) + len(b) - 1)",
+                                     "        m, n = len(a), len(b)\n        if n < m:\n            a, b, m, n = b, a, n, m\n        if m == 0:\n            return []\n\n        c = [0] * (m + n - 1)"),
+  why='lengths held in locals that follow the swap; emptiness tested as m == 0 (OP9 must stay silent)')
+B('poly-mul-zero-first', ('gfpx', "        p = cls.p\n        if len(a) > len(b):\n            a, b = b, a\n        # len(a) <= len(b)\n        if not a:\n            return []\n",
+                                  "        p = cls.p\n        if not a or not b:\n            return []\n\n        if len(a) > len(b):\n            a, b = b, a\n"),
+  why='both operands tested for zero before the swap (OP9 must stay silent)')
+M('poly-mul-zero-first-only-a', ['C23'], ('gfpx', "        p = cls.p\n        if len(a) > len(b):\n            a, b = b, a\n        # len(a) <= len(b)\n        if not a:\n            return []\n",
+                                          "        p = cls.p\n        if not a:\n            return []\n\n        if len(a) > len(b):\n            a, b = b, a\n"),
+  why='the zero test runs before the swap and sees the first operand only: b = 0 with a longer a allocates len(a) - 1 zeros (OP9)')
